@@ -44,7 +44,7 @@ pub struct FileContent { p: core::marker::PhantomData<u8> }
 pub struct ArtifactHash(pub u128);
 impl Clone for ArtifactHash { fn clone(&self) -> (r: Self) ensures r == *self { ArtifactHash(self.0) } }
 
-// pico::Index<T> (pushed text) with the semantics of its derived Clone assumed
+// pico::Index<T> (real text) with the semantics of its derived Clone assumed
 //@item rel=crates/pico/src/index.rs kind=struct name=Index prefix="pub"
 use core::marker::PhantomData;
 impl<T> Clone for Index<T> {
@@ -222,8 +222,177 @@ pub proof fn lemma_sound_weaken(ops: Seq<FileSystemOperation>, st: &FileSystemSt
         || (exists|e: u64, s: u64, f: u64| st.has_nested(e, s, f) && at(ops, i) == OpV::WriteFile(nested_path(d, e, s, f), st.nested_idx(e, s, f)))) by {}
 }
 
+
+// ---------------- diff: meaning of a plan relative to (old, new) ----------------
+pub open spec fn root_needs_write(o: &FileSystemState, n: &FileSystemState, f: u64) -> bool {
+    !o.has_root(f) || o.root_hash(f) != n.root_hash(f)
+}
+pub open spec fn nested_needs_write(o: &FileSystemState, n: &FileSystemState, e: u64, s: u64, f: u64) -> bool {
+    !o.has_nested(e, s, f) || o.nested_hash(e, s, f) != n.nested_hash(e, s, f)
+}
+pub open spec fn ent_dir(d: Seq<int>, e: u64) -> Seq<int> { d.push(e as int) }
+/// every planned operation is justified by a difference between the two states:
+/// writes only for new/changed files (minimality), deletions only of things that vanished
+pub open spec fn op_justified(x: OpV, o: &FileSystemState, n: &FileSystemState, d: Seq<int>) -> bool {
+    match x {
+        OpV::WriteFile(p, idx) =>
+            (exists|f: u64| n.has_root(f) && root_needs_write(o, n, f) && x == OpV::WriteFile(root_path(d, f), n.root_idx(f)))
+            || (exists|e: u64, s: u64, f: u64| n.has_nested(e, s, f) && nested_needs_write(o, n, e, s, f) && x == OpV::WriteFile(nested_path(d, e, s, f), n.nested_idx(e, s, f))),
+        OpV::CreateDirectory(q) => exists|e: u64, s: u64| n.has_sel(e, s) && !o.has_sel(e, s) && x == OpV::CreateDirectory(sel_dir(d, e, s)),
+        OpV::DeleteFile(p) =>
+            (exists|f: u64| o.has_root(f) && !n.has_root(f) && x == OpV::DeleteFile(root_path(d, f)))
+            || (exists|e: u64, s: u64, f: u64| o.has_nested(e, s, f) && n.has_sel(e, s) && !n.has_nested(e, s, f) && x == OpV::DeleteFile(nested_path(d, e, s, f))),
+        OpV::DeleteDirectory(q) =>
+            (exists|e: u64| o.has_entity(e) && !n.has_entity(e) && x == OpV::DeleteDirectory(ent_dir(d, e)))
+            || (exists|e: u64, s: u64| o.has_sel(e, s) && n.has_entity(e) && !n.has_sel(e, s) && x == OpV::DeleteDirectory(sel_dir(d, e, s))),
+    }
+}
+pub open spec fn all_justified(ops: Seq<FileSystemOperation>, o: &FileSystemState, n: &FileSystemState, d: Seq<int>) -> bool {
+    forall|i: int| 0 <= i < ops.len() ==> op_justified(#[trigger] at(ops, i), o, n, d)
+}
+pub open spec fn emits_before(ops: Seq<FileSystemOperation>, x: OpV, before: int) -> bool {
+    exists|j: int| 0 <= j < before && j < ops.len() && #[trigger] at(ops, j) == x
+}
+/// a nested write lands in a directory that already existed (old selectable) or that the
+/// plan created earlier
+pub open spec fn write_has_dir(ops: Seq<FileSystemOperation>, i: int, o: &FileSystemState, d: Seq<int>) -> bool {
+    at(ops, i) is WriteFile ==> {
+        let parent = at(ops, i)->WriteFile_0.drop_last();
+        parent == d
+        || (exists|e: u64, s: u64| o.has_sel(e, s) && parent == sel_dir(d, e, s))
+        || emits_before(ops, OpV::CreateDirectory(parent), i)
+    }
+}
+pub open spec fn writes_have_dirs(ops: Seq<FileSystemOperation>, o: &FileSystemState, d: Seq<int>) -> bool {
+    forall|i: int| 0 <= i < ops.len() ==> #[trigger] write_has_dir(ops, i, o, d)
+}
+pub proof fn lemma_push_diff(ops: Seq<FileSystemOperation>, op: FileSystemOperation, o: &FileSystemState, n: &FileSystemState, d: Seq<int>)
+    requires
+        all_justified(ops, o, n, d), writes_have_dirs(ops, o, d),
+        op_justified(opv(op), o, n, d),
+        opv(op) is WriteFile ==> {
+            let parent = opv(op)->WriteFile_0.drop_last();
+            parent == d || (exists|e: u64, s: u64| o.has_sel(e, s) && parent == sel_dir(d, e, s)) || emits_before(ops, OpV::CreateDirectory(parent), ops.len() as int)
+        },
+    ensures
+        all_justified(ops.push(op), o, n, d), writes_have_dirs(ops.push(op), o, d),
+        forall|x: OpV| emits(ops, x) ==> #[trigger] emits(ops.push(op), x),
+        emits(ops.push(op), opv(op)),
+        forall|x: OpV| emits_before(ops, x, ops.len() as int) ==> #[trigger] emits_before(ops.push(op), x, ops.len() as int + 1),
+        emits_before(ops.push(op), opv(op), ops.len() as int + 1),
+{
+    let m = ops.push(op);
+    assert forall|i: int| 0 <= i < m.len() implies at(m, i) == (if i < ops.len() { at(ops, i) } else { opv(op) }) by {}
+    assert forall|i: int| 0 <= i < m.len() implies op_justified(#[trigger] at(m, i), o, n, d) by {
+        if i < ops.len() { assert(op_justified(at(ops, i), o, n, d)); }
+    }
+    assert forall|i: int| 0 <= i < m.len() implies #[trigger] write_has_dir(m, i, o, d) by {
+        if i < ops.len() {
+            assert(write_has_dir(ops, i, o, d));
+            if at(ops, i) is WriteFile {
+                let parent = at(ops, i)->WriteFile_0.drop_last();
+                if emits_before(ops, OpV::CreateDirectory(parent), i) {
+                    let j = choose|j: int| 0 <= j < i && j < ops.len() && #[trigger] at(ops, j) == OpV::CreateDirectory(parent);
+                    assert(at(m, j) == OpV::CreateDirectory(parent));
+                }
+            }
+        } else if opv(op) is WriteFile {
+            let parent = opv(op)->WriteFile_0.drop_last();
+            if emits_before(ops, OpV::CreateDirectory(parent), ops.len() as int) {
+                let j = choose|j: int| 0 <= j < ops.len() && j < ops.len() && #[trigger] at(ops, j) == OpV::CreateDirectory(parent);
+                assert(at(m, j) == OpV::CreateDirectory(parent));
+            }
+        }
+    }
+    assert forall|x: OpV| emits(ops, x) implies #[trigger] emits(m, x) by { lemma_push_emits(ops, op, x); }
+    assert forall|x: OpV| emits_before(ops, x, ops.len() as int) implies #[trigger] emits_before(m, x, ops.len() as int + 1) by {
+        let j = choose|j: int| 0 <= j < ops.len() && j < ops.len() && #[trigger] at(ops, j) == x;
+        assert(at(m, j) == x);
+    }
+    assert(at(m, ops.len() as int) == opv(op));
+}
+
+
+// ---------------- diff: completeness predicates ----------------
+pub open spec fn file_w(ops: Seq<FileSystemOperation>, o: &FileSystemState, n: &FileSystemState, d: Seq<int>, e: u64, s: u64, f: u64) -> bool {
+    n.has_nested(e, s, f) && nested_needs_write(o, n, e, s, f) ==> emits(ops, OpV::WriteFile(nested_path(d, e, s, f), n.nested_idx(e, s, f)))
+}
+pub open spec fn sel_w(ops: Seq<FileSystemOperation>, o: &FileSystemState, n: &FileSystemState, d: Seq<int>, e: u64, s: u64) -> bool {
+    n.has_sel(e, s) ==> {
+        &&& !o.has_sel(e, s) ==> emits(ops, OpV::CreateDirectory(sel_dir(d, e, s)))
+        &&& forall|f: u64| #[trigger] n.has_nested(e, s, f) ==> file_w(ops, o, n, d, e, s, f)
+    }
+}
+pub open spec fn ent_w(ops: Seq<FileSystemOperation>, o: &FileSystemState, n: &FileSystemState, d: Seq<int>, e: u64) -> bool {
+    forall|s: u64| #[trigger] n.has_sel(e, s) ==> sel_w(ops, o, n, d, e, s)
+}
+pub open spec fn all_w(ops: Seq<FileSystemOperation>, o: &FileSystemState, n: &FileSystemState, d: Seq<int>) -> bool {
+    forall|e: u64| #[trigger] n.has_entity(e) ==> ent_w(ops, o, n, d, e)
+}
+pub open spec fn root_w(ops: Seq<FileSystemOperation>, o: &FileSystemState, n: &FileSystemState, d: Seq<int>, f: u64) -> bool {
+    n.has_root(f) && root_needs_write(o, n, f) ==> emits(ops, OpV::WriteFile(root_path(d, f), n.root_idx(f)))
+}
+pub open spec fn roots_w(ops: Seq<FileSystemOperation>, o: &FileSystemState, n: &FileSystemState, d: Seq<int>) -> bool {
+    forall|f: u64| #[trigger] n.has_root(f) ==> root_w(ops, o, n, d, f)
+}
+pub open spec fn file_d(ops: Seq<FileSystemOperation>, o: &FileSystemState, n: &FileSystemState, d: Seq<int>, e: u64, s: u64, f: u64) -> bool {
+    o.has_nested(e, s, f) && n.has_sel(e, s) && !n.has_nested(e, s, f) ==> emits(ops, OpV::DeleteFile(nested_path(d, e, s, f)))
+}
+pub open spec fn sel_d(ops: Seq<FileSystemOperation>, o: &FileSystemState, n: &FileSystemState, d: Seq<int>, e: u64, s: u64) -> bool {
+    o.has_sel(e, s) && n.has_entity(e) ==> {
+        &&& !n.has_sel(e, s) ==> emits(ops, OpV::DeleteDirectory(sel_dir(d, e, s)))
+        &&& n.has_sel(e, s) ==> forall|f: u64| #[trigger] o.has_nested(e, s, f) ==> file_d(ops, o, n, d, e, s, f)
+    }
+}
+pub open spec fn ent_d(ops: Seq<FileSystemOperation>, o: &FileSystemState, n: &FileSystemState, d: Seq<int>, e: u64) -> bool {
+    o.has_entity(e) ==> {
+        &&& !n.has_entity(e) ==> emits(ops, OpV::DeleteDirectory(ent_dir(d, e)))
+        &&& forall|s: u64| #[trigger] o.has_sel(e, s) ==> sel_d(ops, o, n, d, e, s)
+    }
+}
+pub open spec fn all_d(ops: Seq<FileSystemOperation>, o: &FileSystemState, n: &FileSystemState, d: Seq<int>) -> bool {
+    forall|e: u64| #[trigger] o.has_entity(e) ==> ent_d(ops, o, n, d, e)
+}
+pub open spec fn root_d(ops: Seq<FileSystemOperation>, o: &FileSystemState, n: &FileSystemState, d: Seq<int>, f: u64) -> bool {
+    o.has_root(f) && !n.has_root(f) ==> emits(ops, OpV::DeleteFile(root_path(d, f)))
+}
+pub open spec fn roots_d(ops: Seq<FileSystemOperation>, o: &FileSystemState, n: &FileSystemState, d: Seq<int>) -> bool {
+    forall|f: u64| #[trigger] o.has_root(f) ==> root_d(ops, o, n, d, f)
+}
+/// what iterating HashMap::keys yields
+pub open spec fn keys_ok<K, V>(seq: Seq<&K>, m: Map<K, V>) -> bool {
+    &&& seq.no_duplicates()
+    &&& forall|k: int| 0 <= k < seq.len() ==> m.contains_key(*(#[trigger] seq[k]))
+    &&& forall|key: K| #[trigger] m.contains_key(key) ==> exists|k: int| 0 <= k < seq.len() && *seq[k] == key
+}
+
+pub proof fn lemma_push_mono_diff(ops: Seq<FileSystemOperation>, op: FileSystemOperation, o: &FileSystemState, n: &FileSystemState, d: Seq<int>)
+    ensures
+        forall|e: u64, s: u64, f: u64| file_w(ops, o, n, d, e, s, f) ==> #[trigger] file_w(ops.push(op), o, n, d, e, s, f),
+        forall|e: u64, s: u64| sel_w(ops, o, n, d, e, s) ==> #[trigger] sel_w(ops.push(op), o, n, d, e, s),
+        forall|e: u64| ent_w(ops, o, n, d, e) ==> #[trigger] ent_w(ops.push(op), o, n, d, e),
+        all_w(ops, o, n, d) ==> all_w(ops.push(op), o, n, d),
+        forall|f: u64| root_w(ops, o, n, d, f) ==> #[trigger] root_w(ops.push(op), o, n, d, f),
+        roots_w(ops, o, n, d) ==> roots_w(ops.push(op), o, n, d),
+        forall|e: u64, s: u64, f: u64| file_d(ops, o, n, d, e, s, f) ==> #[trigger] file_d(ops.push(op), o, n, d, e, s, f),
+        forall|e: u64, s: u64| sel_d(ops, o, n, d, e, s) ==> #[trigger] sel_d(ops.push(op), o, n, d, e, s),
+        forall|e: u64| ent_d(ops, o, n, d, e) ==> #[trigger] ent_d(ops.push(op), o, n, d, e),
+        all_d(ops, o, n, d) ==> all_d(ops.push(op), o, n, d),
+        forall|f: u64| root_d(ops, o, n, d, f) ==> #[trigger] root_d(ops.push(op), o, n, d, f),
+        roots_d(ops, o, n, d) ==> roots_d(ops.push(op), o, n, d),
+{
+    assert forall|x: OpV| emits(ops, x) implies #[trigger] emits(ops.push(op), x) by { lemma_push_emits(ops, op, x); }
+}
+
+/// std: tuples of integers hash and compare consistently (vstd provides the key model for
+/// primitive integers only)
+#[verifier::external_body]
+pub proof fn axiom_tuple_key_model()
+    ensures vstd::std_specs::hash::obeys_key_model::<(u64, u64)>()
+{}
+
 impl FileSystemState {
-// ---- pushed code under contract ------------------------------------------------------
+// ---- real code under contract ------------------------------------------------------
 
 //@fn rel=crates/artifact_content/src/file_system_state.rs name=recreate_all within="impl FileSystemState" vis=pub ret=ops serves=C18,C19
 //@sub "in &state\.nested_files \{" => "in it1: state.nested_files.iter() {" n=1
@@ -359,6 +528,251 @@ impl FileSystemState {
                 lemma_push_emits(old_ops4, pushed, opv(pushed));
             }
 //@end
+
+//@fn rel=crates/artifact_content/src/file_system_state.rs name=diff within="impl FileSystemState" vis=pub ret=ops serves=C18
+//@rw R6 R10
+//@sub "in &new\.nested_files \{" => "in it1: new.nested_files.iter() {" n=1
+//@sub "in new_selectable_map \{" => "in it2: new_selectable_map.iter() {" n=1
+//@sub "in new_files \{" => "in it3: new_files.iter() {" n=1
+//@sub "in &new\.root_files \{" => "in it4: new.root_files.iter() {" n=1
+//@sub "in &old\.nested_files \{" => "in it5: old.nested_files.iter() {" n=1
+//@sub "in old_selectable_map \{" => "in it6: old_selectable_map.iter() {" n=1
+//@sub "for file_name in old_files\.keys\(\) \{" => "for (file_name, _) in it7: old_files.iter() {" n=1
+//@sub "for file_name in old\.root_files\.keys\(\) \{" => "for (file_name, _) in it8: old.root_files.iter() {" n=1
+//@sub "let mut new_server_object_entity_name_set = HashSet::new\(\);" => "let mut new_server_object_entity_name_set: HashSet<u64> = HashSet::new();" n=1
+//@sub "let mut new_selectable_set = HashSet::new\(\);" => "let mut new_selectable_set: HashSet<(u64, u64)> = HashSet::new();" n=1
+//@contract
+        ensures
+            // writes only for new or changed files (minimality), deletions only of what vanished
+            all_justified(ops@, old, new, artifact_directory@), //@O C18.O-3a_diff_every_operation_is_justified_by_a_difference
+            // every write lands in a directory that exists at that point of the plan
+            writes_have_dirs(ops@, old, artifact_directory@), //@O C18.O-3b_diff_directory_exists_before_each_write
+            // every new or changed file is written; directories of new selectables are created
+            all_w(ops@, old, new, artifact_directory@), //@O C18.O-3c_diff_writes_every_new_or_changed_nested_file
+            roots_w(ops@, old, new, artifact_directory@), //@O C18.O-3d_diff_writes_every_new_or_changed_root_file
+            // everything that vanished is deleted
+            all_d(ops@, old, new, artifact_directory@), //@O C18.O-3e_diff_deletes_every_vanished_nested_file_and_directory
+            roots_d(ops@, old, new, artifact_directory@), //@O C18.O-3f_diff_deletes_every_vanished_root_file
+//@before "let mut new_server_object_entity_name_set"
+        proof { axiom_tuple_key_model(); }
+//@loop 1
+            invariant
+                all_justified(operations@, old, new, artifact_directory@),
+                writes_have_dirs(operations@, old, artifact_directory@),
+                iter_ok(it1.seq(), new.nested_files@),
+                forall|e: u64| #[trigger] new_server_object_entity_name_set@.contains(e) <==> (exists|k: int| 0 <= k < it1.index@ && *it1.seq()[k].0 == e),
+                forall|e: u64, s: u64| #[trigger] new_selectable_set@.contains((e, s)) <==> (exists|k: int| 0 <= k < it1.index@ && *it1.seq()[k].0 == e && it1.seq()[k].1@.contains_key(s)),
+                forall|k: int| 0 <= k < it1.index@ ==> ent_w(operations@, old, new, artifact_directory@, *(#[trigger] it1.seq()[k]).0),
+//@loop 2
+                invariant
+                    all_justified(operations@, old, new, artifact_directory@),
+                    writes_have_dirs(operations@, old, artifact_directory@),
+                    iter_ok(it1.seq(), new.nested_files@),
+                    0 <= it1.index@ < it1.seq().len(),
+                    *new_server_object_entity_name == *it1.seq()[it1.index@].0,
+                    new.nested_files@.contains_key(*new_server_object_entity_name),
+                    new.nested_files@[*new_server_object_entity_name] == *new_selectable_map,
+                    new_server_object_path@ == ent_dir(artifact_directory@, *new_server_object_entity_name),
+                    match old_selectables_for_object {
+                        Some(m) => old.nested_files@.contains_key(*new_server_object_entity_name) && old.nested_files@[*new_server_object_entity_name] == *m,
+                        None => !old.nested_files@.contains_key(*new_server_object_entity_name),
+                    },
+                    forall|e: u64| #[trigger] new_server_object_entity_name_set@.contains(e) <==> (exists|k: int| 0 <= k <= it1.index@ && *it1.seq()[k].0 == e),
+                    forall|e: u64, s: u64| #[trigger] new_selectable_set@.contains((e, s)) <==>
+                        ((exists|k: int| 0 <= k < it1.index@ && *it1.seq()[k].0 == e && it1.seq()[k].1@.contains_key(s))
+                         || (e == *new_server_object_entity_name && exists|k2: int| 0 <= k2 < it2.index@ && *it2.seq()[k2].0 == s)),
+                    forall|k: int| 0 <= k < it1.index@ ==> ent_w(operations@, old, new, artifact_directory@, *(#[trigger] it1.seq()[k]).0),
+                    iter_ok(it2.seq(), new_selectable_map@),
+                    forall|k2: int| 0 <= k2 < it2.index@ ==> sel_w(operations@, old, new, artifact_directory@, *new_server_object_entity_name, *(#[trigger] it2.seq()[k2]).0),
+//@loop 3
+                    invariant
+                        all_justified(operations@, old, new, artifact_directory@),
+                        writes_have_dirs(operations@, old, artifact_directory@),
+                        new.nested_files@.contains_key(*new_server_object_entity_name),
+                        new.nested_files@[*new_server_object_entity_name] == *new_selectable_map,
+                        new_selectable_map@.contains_key(*new_selectable),
+                        new_selectable_map@[*new_selectable] == *new_files,
+                        new_selectable_path@ == sel_dir(artifact_directory@, *new_server_object_entity_name, *new_selectable),
+                        match old_files_for_selectable {
+                            Some(m) => old.has_sel(*new_server_object_entity_name, *new_selectable) && old.nested_files@[*new_server_object_entity_name]@[*new_selectable] == *m,
+                            None => !old.has_sel(*new_server_object_entity_name, *new_selectable),
+                        },
+                        !old.has_sel(*new_server_object_entity_name, *new_selectable) ==>
+                            emits_before(operations@, OpV::CreateDirectory(new_selectable_path@), operations@.len() as int),
+                        !old.has_sel(*new_server_object_entity_name, *new_selectable) ==>
+                            emits(operations@, OpV::CreateDirectory(new_selectable_path@)),
+                        forall|k: int| 0 <= k < it1.index@ ==> ent_w(operations@, old, new, artifact_directory@, *(#[trigger] it1.seq()[k]).0),
+                        forall|k2: int| 0 <= k2 < it2.index@ ==> sel_w(operations@, old, new, artifact_directory@, *new_server_object_entity_name, *(#[trigger] it2.seq()[k2]).0),
+                        iter_ok(it3.seq(), new_files@),
+                        forall|k3: int| 0 <= k3 < it3.index@ ==> file_w(operations@, old, new, artifact_directory@, *new_server_object_entity_name, *new_selectable, *(#[trigger] it3.seq()[k3]).0),
+//@before "new_selectable_set.insert("
+                    proof { axiom_tuple_key_model(); }
+                    let ghost set2_before = new_selectable_set@;
+//@after "new_selectable_set.insert("
+                    proof {
+                        let e0 = *new_server_object_entity_name; let s0 = *new_selectable;
+                        assert(new_selectable_set@ == set2_before.insert((e0, s0)));
+                        assert(*it2.seq()[it2.index@].0 == s0);
+                    }
+//@before "if !new_selectable_set.contains("
+                    proof { axiom_tuple_key_model(); }
+//@before "operations.push(FileSystemOperation::CreateDirectory("
+                    let ghost o1 = operations@;
+//@after "operations.push(FileSystemOperation::CreateDirectory("
+                    proof {
+                        let pushed = operations@[operations@.len() - 1];
+                        assert(operations@ == o1.push(pushed));
+                        assert(new.has_sel(*new_server_object_entity_name, *new_selectable));
+                        assert(opv(pushed) == OpV::CreateDirectory(sel_dir(artifact_directory@, *new_server_object_entity_name, *new_selectable)));
+                        lemma_push_diff(o1, pushed, old, new, artifact_directory@);
+                        lemma_push_mono_diff(o1, pushed, old, new, artifact_directory@);
+                    }
+//@before "operations.push(FileSystemOperation::WriteFile(" nth=0
+                        let ghost o2 = operations@;
+//@after "operations.push(FileSystemOperation::WriteFile(" nth=0
+                        proof {
+                            let e = *new_server_object_entity_name; let s = *new_selectable; let f = *new_file_name;
+                            let pushed = operations@[operations@.len() - 1];
+                            assert(operations@ == o2.push(pushed));
+                            assert(new.has_nested(e, s, f));
+                            assert(nested_needs_write(old, new, e, s, f));
+                            assert(new_file_path@ == nested_path(artifact_directory@, e, s, f));
+                            assert(new_file_path@.drop_last() == new_selectable_path@);
+                            assert(opv(pushed) == OpV::WriteFile(nested_path(artifact_directory@, e, s, f), new.nested_idx(e, s, f)));
+                            lemma_push_diff(o2, pushed, old, new, artifact_directory@);
+                            lemma_push_mono_diff(o2, pushed, old, new, artifact_directory@);
+                        }
+//@loop 4
+            invariant
+                all_justified(operations@, old, new, artifact_directory@),
+                writes_have_dirs(operations@, old, artifact_directory@),
+                all_w(operations@, old, new, artifact_directory@),
+                forall|e: u64| #[trigger] new_server_object_entity_name_set@.contains(e) <==> new.has_entity(e),
+                forall|e: u64, s: u64| #[trigger] new_selectable_set@.contains((e, s)) <==> new.has_sel(e, s),
+                iter_ok(it4.seq(), new.root_files@),
+                forall|k: int| 0 <= k < it4.index@ ==> root_w(operations@, old, new, artifact_directory@, *(#[trigger] it4.seq()[k]).0),
+//@before "operations.push(FileSystemOperation::WriteFile(" nth=1
+                let ghost o3 = operations@;
+//@after "operations.push(FileSystemOperation::WriteFile(" nth=1
+                proof {
+                    let f = *new_file_name;
+                    let pushed = operations@[operations@.len() - 1];
+                    assert(operations@ == o3.push(pushed));
+                    assert(new.has_root(f) && root_needs_write(old, new, f));
+                    assert(new_file_path@ == root_path(artifact_directory@, f));
+                    assert(new_file_path@.drop_last() == artifact_directory@);
+                    assert(opv(pushed) == OpV::WriteFile(root_path(artifact_directory@, f), new.root_idx(f)));
+                    lemma_push_diff(o3, pushed, old, new, artifact_directory@);
+                    lemma_push_mono_diff(o3, pushed, old, new, artifact_directory@);
+                }
+//@loop 5
+            invariant
+                all_justified(operations@, old, new, artifact_directory@),
+                writes_have_dirs(operations@, old, artifact_directory@),
+                all_w(operations@, old, new, artifact_directory@),
+                roots_w(operations@, old, new, artifact_directory@),
+                forall|e: u64| #[trigger] new_server_object_entity_name_set@.contains(e) <==> new.has_entity(e),
+                forall|e: u64, s: u64| #[trigger] new_selectable_set@.contains((e, s)) <==> new.has_sel(e, s),
+                iter_ok(it5.seq(), old.nested_files@),
+                forall|k: int| 0 <= k < it5.index@ ==> ent_d(operations@, old, new, artifact_directory@, *(#[trigger] it5.seq()[k]).0),
+//@loop 6
+                invariant
+                    all_justified(operations@, old, new, artifact_directory@),
+                    writes_have_dirs(operations@, old, artifact_directory@),
+                    all_w(operations@, old, new, artifact_directory@),
+                    roots_w(operations@, old, new, artifact_directory@),
+                    forall|e: u64| #[trigger] new_server_object_entity_name_set@.contains(e) <==> new.has_entity(e),
+                    forall|e: u64, s: u64| #[trigger] new_selectable_set@.contains((e, s)) <==> new.has_sel(e, s),
+                    old.nested_files@.contains_key(*old_server_object_entity_name),
+                    old.nested_files@[*old_server_object_entity_name] == *old_selectable_map,
+                    new.has_entity(*old_server_object_entity_name),
+                    old_server_object_path@ == ent_dir(artifact_directory@, *old_server_object_entity_name),
+                    match new_selectable_map_for_object {
+                        Some(m) => new.nested_files@[*old_server_object_entity_name] == *m,
+                        None => false,
+                    },
+                    forall|k: int| 0 <= k < it5.index@ ==> ent_d(operations@, old, new, artifact_directory@, *(#[trigger] it5.seq()[k]).0),
+                    iter_ok(it6.seq(), old_selectable_map@),
+                    forall|k2: int| 0 <= k2 < it6.index@ ==> sel_d(operations@, old, new, artifact_directory@, *old_server_object_entity_name, *(#[trigger] it6.seq()[k2]).0),
+//@loop 7
+                    invariant
+                        all_justified(operations@, old, new, artifact_directory@),
+                        writes_have_dirs(operations@, old, artifact_directory@),
+                        all_w(operations@, old, new, artifact_directory@),
+                        roots_w(operations@, old, new, artifact_directory@),
+                        old.nested_files@.contains_key(*old_server_object_entity_name),
+                        old.nested_files@[*old_server_object_entity_name] == *old_selectable_map,
+                        old_selectable_map@.contains_key(*old_selectable),
+                        old_selectable_map@[*old_selectable] == *old_files,
+                        new.has_sel(*old_server_object_entity_name, *old_selectable),
+                        old_selectable_path@ == sel_dir(artifact_directory@, *old_server_object_entity_name, *old_selectable),
+                        match new_files_for_selectable {
+                            Some(m) => new.nested_files@[*old_server_object_entity_name]@[*old_selectable] == *m,
+                            None => false,
+                        },
+                        forall|k: int| 0 <= k < it5.index@ ==> ent_d(operations@, old, new, artifact_directory@, *(#[trigger] it5.seq()[k]).0),
+                        forall|k2: int| 0 <= k2 < it6.index@ ==> sel_d(operations@, old, new, artifact_directory@, *old_server_object_entity_name, *(#[trigger] it6.seq()[k2]).0),
+                        iter_ok(it7.seq(), old_files@),
+                        forall|k3: int| 0 <= k3 < it7.index@ ==> file_d(operations@, old, new, artifact_directory@, *old_server_object_entity_name, *old_selectable, *(#[trigger] it7.seq()[k3]).0),
+//@before "operations.push(FileSystemOperation::DeleteDirectory(old_server_object_path)"
+                let ghost o4 = operations@;
+//@after "operations.push(FileSystemOperation::DeleteDirectory(old_server_object_path)"
+                proof {
+                    let e = *old_server_object_entity_name;
+                    let pushed = operations@[operations@.len() - 1];
+                    assert(operations@ == o4.push(pushed));
+                    assert(old.has_entity(e) && !new.has_entity(e));
+                    assert(opv(pushed) == OpV::DeleteDirectory(ent_dir(artifact_directory@, e)));
+                    lemma_push_diff(o4, pushed, old, new, artifact_directory@);
+                    lemma_push_mono_diff(o4, pushed, old, new, artifact_directory@);
+                }
+//@before "operations.push(FileSystemOperation::DeleteDirectory(old_selectable_path)"
+                    let ghost o5 = operations@;
+//@after "operations.push(FileSystemOperation::DeleteDirectory(old_selectable_path)"
+                    proof {
+                        let e = *old_server_object_entity_name; let s = *old_selectable;
+                        let pushed = operations@[operations@.len() - 1];
+                        assert(operations@ == o5.push(pushed));
+                        assert(old.has_sel(e, s) && new.has_entity(e) && !new.has_sel(e, s));
+                        assert(opv(pushed) == OpV::DeleteDirectory(sel_dir(artifact_directory@, e, s)));
+                        lemma_push_diff(o5, pushed, old, new, artifact_directory@);
+                        lemma_push_mono_diff(o5, pushed, old, new, artifact_directory@);
+                    }
+//@before "operations.push(FileSystemOperation::DeleteFile(" nth=0
+                            let ghost o6 = operations@;
+//@after "operations.push(FileSystemOperation::DeleteFile(" nth=0
+                            proof {
+                                let e = *old_server_object_entity_name; let s = *old_selectable; let f = *file_name;
+                                let pushed = operations@[operations@.len() - 1];
+                                assert(operations@ == o6.push(pushed));
+                                assert(old.has_nested(e, s, f) && new.has_sel(e, s) && !new.has_nested(e, s, f));
+                                assert(opv(pushed) == OpV::DeleteFile(nested_path(artifact_directory@, e, s, f)));
+                                lemma_push_diff(o6, pushed, old, new, artifact_directory@);
+                                lemma_push_mono_diff(o6, pushed, old, new, artifact_directory@);
+                            }
+//@loop 8
+            invariant
+                all_justified(operations@, old, new, artifact_directory@),
+                writes_have_dirs(operations@, old, artifact_directory@),
+                all_w(operations@, old, new, artifact_directory@),
+                roots_w(operations@, old, new, artifact_directory@),
+                all_d(operations@, old, new, artifact_directory@),
+                iter_ok(it8.seq(), old.root_files@),
+                forall|k: int| 0 <= k < it8.index@ ==> root_d(operations@, old, new, artifact_directory@, *(#[trigger] it8.seq()[k]).0),
+//@before "operations.push(FileSystemOperation::DeleteFile(" nth=1
+                let ghost o7 = operations@;
+//@after "operations.push(FileSystemOperation::DeleteFile(" nth=1
+                proof {
+                    let f = *file_name;
+                    let pushed = operations@[operations@.len() - 1];
+                    assert(operations@ == o7.push(pushed));
+                    assert(old.has_root(f) && !new.has_root(f));
+                    assert(opv(pushed) == OpV::DeleteFile(root_path(artifact_directory@, f)));
+                    lemma_push_diff(o7, pushed, old, new, artifact_directory@);
+                    lemma_push_mono_diff(o7, pushed, old, new, artifact_directory@);
+                }
+//@end
+
 }
 
 } // verus!
